@@ -9,7 +9,9 @@
     a run-once guard; shuffles and resampling inside the loops construct their generator freshly from the seed;
  R4 in-place column writes on the shared unit frames inside the loops use a column name that contains every request parameter
     the written value depends on (pred_turnout is the documented exception: it exists for the margin estimand only);
- R5 no closure reading a loop variable is stored beyond its iteration (late binding) anywhere in the package.
+ R5 no closure reading a loop variable is stored beyond its iteration (late binding) anywhere in the package;
+ R6 the unit split (which units are fitted / predicted / passed through) reads no row predicate that depends on the list of
+    requested estimands (the margin switch excepted).
 """
 from __future__ import annotations
 
@@ -36,11 +38,15 @@ def check(ctx):
         "run-once guard), and name/value dependence of every in-place column write on the shared frames (def-use terms)."
     )
     ctx.assumptions += ["numpy / pandas in-place operators (*=, +=) mutate the object they are applied to",
-                        "C12 decides that the seeds themselves derive from the seed setting"]
+                        "C12 decides that the seeds themselves derive from the seed setting",
+                        "a feed row carries results for all requested estimands or for none: under the documented 'drop' policy a row "
+                        "with a missing result for ANY requested estimand is dropped for all of them (explicit in the source comment), "
+                        "so for rows with partially missing results the set of requested estimands does matter - by design, not judged"]
     merge_keys(ctx, "C13.R1")
     _caches(ctx)
     _estimand_scope(ctx)
     _late_binding(ctx)
+    _split_request_independent(ctx)
     _generators(ctx)
     _column_writes(ctx)
 
@@ -152,6 +158,34 @@ def _caches(ctx):
             res_key = ast.unparse(st.targets[0].slice)
         ctx.ob("C13.R2.client", f"{ge.qualname}|result stored under its level", res_key == lv, ge.where(c),
                "the result is stored under its own level" if res_key == lv else f"result stored under {res_key}")
+
+
+def _split_request_independent(ctx):
+    """R6: which units are fitted, predicted or passed through is decided once per run, for all estimands together; if that
+    decision looked at the LIST of requested vote-count estimands, the numbers reported for one estimand would depend on which
+    others were requested with it.  Every row predicate of the three frames of get_units is inspected for a dependence on
+    self.estimands; the only admitted one is the switch `'margin' in self.estimands` (margin is the bootstrap's single estimand,
+    never requested together with vote counts)."""
+    from .. import rowsets as rs
+    from ..unitsplit import UnitSplit
+    us = UnitSplit(ctx)
+    SELF_ = ("param", "self")
+    EST = ("attr", SELF_, "estimands")
+    bools, rels = rs.variables(us.fR, us.fN, us.fU)
+    bad = []
+    for name in bools:
+        t = us.rs.atom_terms.get(name)
+        if t is not None and any(x == EST for x in ir.walk(t)):
+            bad.append(str(name))
+        if isinstance(name, str) and name.startswith("flag:") and "estimands" in name and "'margin' in" not in name:
+            bad.append(name)
+    for key in rels:
+        if "estimands" in str(key):
+            bad.append(str(key))
+    ctx.ob("C13.R6.split", f"{us.f.qualname}|unit split does not depend on the list of requested estimands", not bad, us.f.where(),
+           f"none of the {len(bools) + len(rels)} row predicates of the three frames reads self.estimands (except the margin switch)" if not bad
+           else f"a row predicate of the unit split depends on the requested estimands: {bad[0][:160]}: a unit is then modelled or passed "
+                f"through for EVERY estimand according to what else was requested")
 
 
 def _late_binding(ctx):
